@@ -98,7 +98,7 @@ macro_rules! impl_bit_value {
                 if val & (1 << (len - 1)) == 0 {
                     val
                 } else {
-                    let magnitude = (!val) + 1;
+                    let magnitude = (!val).wrapping_add(1);
                     if magnitude & !(-1 << (len - 1)) == 0 {
                         // the magnitude does not fit (value == -2^(len-1)): never emit "negative zero"
                         0
